@@ -6,6 +6,7 @@ import shutil
 import subprocess
 
 import common
+import jsoncorr
 import corpus
 import gen
 import history
@@ -251,6 +252,9 @@ def run(outcome, tier, seed):
                     "CLI oracle: each multi-file invocation")
     rng = random.Random(seed + 3)
     history.correspondence(outcome, tier, seed, STREAMING, rng, 400 if tier == "thorough" else 60)
+    if outcome.hooks_available:
+        shared.msgpack_correspondence(outcome, tier, seed, oracle=False)
+    jsoncorr.correspondence(outcome, tier, seed)
     if outcome.hooks_available:
         st = shared.harness_corr(outcome, "chunker", "YAML chunker (libyaml event stream -> chunks)", tier, seed)
         for f in st["oracle_failures"]:
